@@ -191,6 +191,18 @@ def mk_not(t: Term) -> Term:
 def _strip_bool(t: Term) -> Term:
     if t[0] == "call" and t[1] == ("name", "bool") and len(t[2]) == 1 and not t[3]:
         return _strip_bool(t[2][0])
+    # in a boolean context a conditional with a constant arm is a conjunction / disjunction (a private boolean helper
+    # written with early `return False` inlines to this form)
+    if t[0] == "ifexp" and len(t) == 4:
+        c, a, b = t[1], t[2], t[3]
+        if b == ("const", False):
+            return mk_and([c, a])
+        if a == ("const", False):
+            return mk_and([mk_not(c), b])
+        if a == ("const", True):
+            return mk_or([c, b])
+        if b == ("const", True):
+            return mk_or([mk_not(c), a])
     return t
 
 
@@ -600,6 +612,7 @@ class Sym:
         for g in e.generators:  # type: ignore[attr-defined]
             it = self.ev(g.iter, env2, p, lp)
             self._bind_target(g.target, ("elem", it, len(lp)), env2)
+            it = self._pairs_source(it, g.target)
             lp = lp + (it,)
             conds = []
             for c in g.ifs:
@@ -633,6 +646,22 @@ class Sym:
                 return ("obj", k, val)
         return val
 
+    @staticmethod
+    def _pairs_source(it: Term, tgt: ast.AST) -> Term:
+        """`for k, v in [(f(x), g(x)) for x in X]` (no filter) iterates over X: the names are bound to f(x), g(x)."""
+        if (
+            isinstance(tgt, (ast.Tuple, ast.List))
+            and it[0] == "comp"
+            and it[1] in ("list", "gen", "set")
+            and it[2][0] == "tuple"
+            and len(it[2]) - 1 == len(tgt.elts)
+            and len(it[3]) == 1
+            and it[3][0][1] == TRUE
+            and not any(isinstance(y, ast.Starred) for y in tgt.elts)
+        ):
+            return it[3][0][0]
+        return it
+
     def _bind_target(self, tgt: ast.AST, val: Term, env: dict) -> None:
         if isinstance(tgt, ast.Name):
             env[tgt.id] = self._fresh(tgt.id, val)
@@ -642,6 +671,21 @@ class Sym:
             # the call record holds _Call(name, args, kwargs) named tuples: unpacking one is reading its three fields
             for x, fld in zip(tgt.elts, ("name", "args", "kwargs")):
                 env[x.id] = ("attr", val, fld)
+        elif (
+            isinstance(tgt, (ast.Tuple, ast.List))
+            and val[0] == "elem"
+            and val[1][0] == "comp"
+            and val[1][1] in ("list", "gen", "set")
+            and val[1][2][0] == "tuple"
+            and len(val[1][2]) - 1 == len(tgt.elts)
+            and len(val[1][3]) == 1
+            and not any(isinstance(y, ast.Starred) for y in tgt.elts)
+        ):
+            # `for k, v in [(f(x), g(x)) for x in X]` (also `{f(x): g(x) for x in X}.items()`): the unpacked names are the
+            # components of the pair built for the element of X
+            src, depth = val[1][3][0][0], val[2]
+            for x, comp_i in zip(tgt.elts, val[1][2][1:]):
+                self._bind_target(x, subst(comp_i, lambda t: ("elem", src, depth) if t and t[0] == "elem" and len(t) == 3 and t[1] == src else None), env)
         elif isinstance(tgt, (ast.Tuple, ast.List)):
             for i, x in enumerate(tgt.elts):
                 if isinstance(x, ast.Starred):
@@ -1079,6 +1123,7 @@ class Sym:
             if k not in building:
                 e2[k] = ("carried", k) if pre.get(k) is not None else UNDEF
         self._bind_target(st.target, ("elem", it, len(loops)), e2)
+        it = self._pairs_source(it, st.target)
         inner_loops = loops + (it,)
         self._exits.append([])
         o = self.block(st.body, e2, path, inner_loops)
